@@ -882,7 +882,9 @@ func (m *Machine) appendVals(dst, src []value, fn *ssa.Builtin) []value {
 		newCap = need
 	}
 	esz := int64(8)
-	if sig, ok := fn.Type().(*types.Signature); ok && sig.Params().Len() > 0 {
+	if fn == nil {
+		esz = 1
+	} else if sig, ok := fn.Type().(*types.Signature); ok && sig.Params().Len() > 0 {
 		if st, ok := sig.Params().At(0).Type().Underlying().(*types.Slice); ok {
 			esz = m.world.Sizes.Sizeof(st.Elem())
 		}
